@@ -369,6 +369,21 @@ IterMutProg(style, mut, at) ==
 IterMuts(u) == {IterMutProg(style, mut, at) : style \in {"range2", "range1", "in"},
                   mut \in {"append", "pop", "extend", "reverse", "setlast", "rebind"}, at \in {1, 2, 4}}
 
+\* several deferred calls in one function: a function literal called in place, a named script function, a builtin, in
+\* every order (two and three of them); the function returns or raises.  All of them run, last registered first.
+DeferS(e) == [k |-> "defer", e |-> e]
+DeferOf(kind, m) == CASE kind = "closure" -> DeferS(CallE(FuncE("", <<>>, <<P(m)>>), <<>>))
+                      [] kind = "named" -> DeferS(CallE(Id("lg"), <<I(m)>>))
+                      [] kind = "builtin" -> DeferS(CallE(Id("print"), <<I(m)>>))
+DeferKinds == {"closure", "named", "builtin"}
+DeferProg(kinds, raises) ==
+  LET body == [j \in 1..Len(kinds) |-> DeferOf(kinds[j], 10 * j)] \o <<P(0)>> \o
+              (IF raises THEN <<ES(CallE(Id("error"), <<Str1(98)>>))>> ELSE <<Ret(I(5))>>)
+  IN <<VarS("lg", FuncE("", <<Param("k")>>, <<PV(1, Id("k"))>>)),
+       VarS("f", FuncE("", <<>>, body)),
+       PV(2, CallE(Id("try"), <<Id("f"), FuncE("", <<Param("e")>>, <<Ret(I(9))>>)>>)), ES(I(0))>>
+DeferProgs(u) == {DeferProg(ks, r) : ks \in (DeferKinds \X DeferKinds) \cup (DeferKinds \X DeferKinds \X DeferKinds), r \in BOOLEAN}
+
 \* only well-scoped scenarios: the innermost function of a chain of depth d can see v_1 .. v_d
 Closures(maxd) == UNION {{ClosureProg(d, rd, wr, route, twice, ps[1], ps[2]) :
                             rd \in 1..d, wr \in 1..d, route \in Routes, twice \in BOOLEAN,
